@@ -63,7 +63,11 @@ func (x *Exec) evalInstr(fr *Frame, st *State, in ssa.Value) (Val, bool) {
 			x.te.SortOf(in.X.Type())
 			x.oblige(st, "SAFE", "bounds("+x.posText(in.Pos())+")", And(Le(IntLit(0), iv.T), Lt(iv.T, sliceLen(xs.T))), "slice index out of range")
 			st.assume(And(Le(IntLit(0), iv.T), Lt(iv.T, sliceLen(xs.T))))
-			return Val{Loc: &Loc{Kind: LSliceElem, Parent: xs.Src, SliceV: xs.T, I: iv.T, Elem: u.Elem(), ST: in.X.Type()}, Typ: in.Type()}, true
+			l := &Loc{Kind: LSliceElem, Parent: xs.Src, SliceV: xs.T, I: iv.T, Elem: u.Elem(), ST: in.X.Type()}
+			if strings.HasPrefix(xs.Org, "table:") {
+				l.Table = strings.TrimPrefix(xs.Org, "table:")
+			}
+			return Val{Loc: l, Typ: in.Type()}, true
 		case *types.Pointer:
 			at := u.Elem().Underlying().(*types.Array)
 			x.oblige(st, "SAFE", "bounds("+x.posText(in.Pos())+")", And(Le(IntLit(0), iv.T), Lt(iv.T, IntLit(at.Len()))), "array index out of range")
@@ -838,7 +842,16 @@ func (x *Exec) sliceOp(fr *Frame, st *State, in *ssa.Slice) Val {
 		l := x.locOfPointer(st, xs, u.Elem())
 		av := x.load(st, l, u.Elem())
 		arr := x.shiftArray(st, av.T, lo)
-		return Val{T: x.te.SliceMake(in.Type(), arr, Sub(hi, lo), Sub(IntLit(at.Len()), lo), False), Typ: in.Type()}
+		rv := Val{T: x.te.SliceMake(in.Type(), arr, Sub(hi, lo), Sub(IntLit(at.Len()), lo), False), Typ: in.Type()}
+		if l.Kind == LCell && lo.S == "0" && in.High == nil && st.arrElems[l.Cell] != nil {
+			m := st.arrElems[l.Cell]
+			if int64(len(m)) == at.Len() {
+				for i := int64(0); i < at.Len(); i++ {
+					rv.Elems = append(rv.Elems, m[i])
+				}
+			}
+		}
+		return rv
 	}
 	x.note("unmodelled Slice on %s", in.X.Type())
 	return x.freshVal(st, "slice", in.Type())
